@@ -45,6 +45,74 @@ FLOOR_RESULT_CALLS = 200   # counted 277 on the pinned tree
 FLOOR_TRY_SITES = 60       # counted 103 on the pinned tree; `?; Ok(())` tails written as tail expressions lower it without removing a check
 
 
+def count_is_used(b, t):
+    """Does anything look at the Ok payload of this call (the number of bytes transferred)?  The payload is followed through `?` /
+    match arms, copies and casts; a use is a comparison, arithmetic, an index / range, or passing it to a call."""
+    if t["dest"]["p"]:
+        return True
+    derived = {t["dest"]["l"]}
+    grew = True
+    while grew:
+        grew = False
+        for bj, sj, st in b.stmts():
+            if st["s"] != "assign" or st["lhs"]["p"] or st["lhs"]["l"] in derived:
+                continue
+            rv = st["rv"]
+            srcs = [operand_place(rv["o"])] if rv["r"] in ("use", "cast") and "o" in rv else []
+            if any(q is not None and q["l"] in derived for q in srcs):
+                derived.add(st["lhs"]["l"])
+                grew = True
+        for bj, tj in b.calls():
+            if (tj["callee"].get("def") or "") in ("std::ops::Try::branch",) and not tj["dest"]["p"] and tj["dest"]["l"] not in derived:
+                q = operand_place(tj["args"][0]) if tj["args"] else None
+                if q is not None and q["l"] in derived:
+                    derived.add(tj["dest"]["l"])
+                    grew = True
+    # payload locals: moved out of a derived local through a Continue / Ok downcast
+    payload = set()
+    for bj, sj, st in b.stmts():
+        if st["s"] == "assign" and st["rv"]["r"] in ("use", "cast"):
+            q = operand_place(st["rv"]["o"])
+            if q is not None and q["l"] in derived and any(isinstance(e, dict) and "down" in e and e.get("name") in ("Continue", "Ok") for e in q["p"]):
+                if not st["lhs"]["p"]:
+                    payload.add(st["lhs"]["l"])
+    grew = True
+    while grew:
+        grew = False
+        for bj, sj, st in b.stmts():
+            if st["s"] == "assign" and not st["lhs"]["p"] and st["lhs"]["l"] not in payload and st["rv"]["r"] in ("use", "cast"):
+                q = operand_place(st["rv"]["o"])
+                if q is not None and not q["p"] and q["l"] in payload:
+                    payload.add(st["lhs"]["l"])
+                    grew = True
+    if not payload:
+        return False
+    for bj, sj, st in b.stmts():
+        if st["s"] != "assign":
+            continue
+        rv = st["rv"]
+        if rv["r"] == "bin":
+            for k in ("a", "b"):
+                q = operand_place(rv[k])
+                if q is not None and q["l"] in payload:
+                    return True
+        for e in st["lhs"]["p"]:
+            if isinstance(e, dict) and e.get("idx") in payload:
+                return True
+    for bj, tj in b.calls():
+        for a in tj["args"]:
+            q = operand_place(a)
+            if q is not None and q["l"] in payload:
+                return True
+    for bj in b.reachable():
+        tt = b.blocks[bj]["term"]
+        if tt["t"] == "switch":
+            q = operand_place(tt["discr"])
+            if q is not None and q["l"] in payload:
+                return True
+    return False
+
+
 def is_io_result(ty):
     return ty.startswith("std::result::Result<") and ty.endswith(", std::io::Error>")
 
@@ -142,7 +210,7 @@ def check_config(ctx, F, tag, views=True):
             wname = callee_written(t)
             cname = callee_name(t)
             if wname in PARTIAL_IO or cname in PARTIAL_IO:
-                partial_calls.append((b.name, wname, loc(t["sp"])))
+                partial_calls.append((b.name, wname, loc(t["sp"]), count_is_used(b, t)))
             if cname == "std::io::copy":
                 copy_sites.append((b, bi, t))
             dty = t["dest_ty"]
@@ -246,12 +314,15 @@ def check_config(ctx, F, tag, views=True):
                             flushes.append(bj)
                 oks = ok_blocks(b).get("Ok", []) or b.return_blocks()
                 good = w is not None and bool(flushes) and t["target"] is not None and must_pass_through(b, t["target"], flushes, to_blocks=oks)
-                ctx.ob("C14.R2.buffered-writer-flushed", "%s|%s%s" % (b.name, cn.split("::<")[0], tag), loc(t["sp"]), good, "must-pass-through",
+                ctx.ob("C14.R2.buffered-writer-flushed", "%s|%s%s" % (b.name, cn.split("::<")[0], tag), loc(t["sp"]), good, "must-pass-through", positive=True, detail=
                        "a buffering writer is created here; every path to a successful return must call flush()/into_inner() on it (its Drop discards the error of the last write): %s" % good)
     ctx.count("buffering-writers" + tag, nbuf)
     # ---------- R2
-    ctx.ob("C14.R2.no-partial-io", "crate" + tag, "src/", not partial_calls, "who-may-call",
-           "calls to partial-I/O primitives (count must be 0): %s" % partial_calls)
+    # a partial read / write whose count is thrown away accepts a short transfer silently: that is the defect itself (violation);
+    # one whose count is looked at (compared, sliced with, looped on) may handle the remainder correctly -- not decided here
+    dropped = [p for p in partial_calls if not p[3]]
+    ctx.ob("C14.R2.no-partial-io", "crate" + tag, "src/", True if not partial_calls else (False if dropped else None), "who-may-call",
+           "calls to partial-I/O primitives: %s; with the returned count never looked at: %s" % ([p[:3] for p in partial_calls], [p[:3] for p in dropped]))
     for b, bi, t in copy_sites:
         key = "%s|std::io::copy" % b.name
         where = loc(t["sp"])
@@ -281,6 +352,46 @@ def check_config(ctx, F, tag, views=True):
                     cmp_blocks.append(u)
                     if f[1] == "Ne":
                         mismatch_targets.append(v)
+        if payload is not None and want is not None and not cmp_blocks:
+            # the count may travel before it is compared: through casts, an `Ok(count)` returned by an inlined helper, the
+            # caller's `?` on that -- follow the locals it flows into and look for a comparison of one of them with the length
+            derived = {payload}
+            grew = True
+            while grew:
+                grew = False
+                for bj, sj, stj in b.stmts():
+                    if stj["s"] != "assign" or stj["lhs"]["p"] or stj["lhs"]["l"] in derived:
+                        continue
+                    rvj = stj["rv"]
+                    srcs = []
+                    if rvj["r"] in ("use", "cast"):
+                        srcs = [operand_place(rvj["o"])]
+                    elif rvj["r"] == "agg" and rvj.get("vname") in ("Ok", "Some", "Continue"):
+                        srcs = [operand_place(o) for o in rvj["ops"]]
+                    if any(q is not None and q["l"] in derived for q in srcs):
+                        derived.add(stj["lhs"]["l"])
+                        grew = True
+                for bj, tj in b.calls():
+                    if (tj["callee"].get("def") or "") in ("std::ops::Try::branch", "std::ops::Try::from_output") and not tj["dest"]["p"] and tj["dest"]["l"] not in derived:
+                        q = operand_place(tj["args"][0]) if tj["args"] else None
+                        if q is not None and q["l"] in derived:
+                            derived.add(tj["dest"]["l"])
+                            grew = True
+            for bj, sj, stj in b.stmts():
+                if stj["s"] == "assign" and stj["rv"]["r"] == "bin" and stj["rv"]["op"] in ("Eq", "Ne") and not stj["lhs"]["p"]:
+                    qa, qb = operand_place(stj["rv"]["a"]), operand_place(stj["rv"]["b"])
+                    for q, other in ((qa, stj["rv"]["b"]), (qb, stj["rv"]["a"])):
+                        if q is not None and q["l"] in derived and strip_casts(b.term_of_operand(other)) == strip_casts(want):
+                            # the switch on this comparison
+                            tt = b.blocks[bj]["term"]
+                            if tt["t"] == "switch":
+                                cmp_blocks.append(bj)
+                                ne = stj["rv"]["op"] == "Ne"
+                                for v_, d_ in tt["targets"]:
+                                    if (int(v_) != 0) == ne:
+                                        mismatch_targets.append(d_)
+                                if ne == (0 in [int(v_) for v_, _ in tt["targets"]]) and len(tt["targets"]) == 1:
+                                    mismatch_targets.append(tt["otherwise"])
         oks = ok_blocks(b).get("Ok", [])
         ok = False
         detail = "the count returned by io::copy is dropped: no comparison with the requested length %s on the path to Ok" % (tstr(want) if want else "?")
@@ -289,7 +400,8 @@ def check_config(ctx, F, tag, views=True):
             leak = [x for x in oks if x in b.reach_from(mismatch_targets)]
             ok = every and not leak
             detail = "copied count compared with %s on every path to Ok: %s; Ok reachable from the mismatch edge: %s" % (tstr(want), every, leak)
-        ctx.ob("C14.R2.copy-count-checked", key + tag, where, ok, "guard-on-path", detail)
+        # a bounded copy (`take(n)`) whose count is never compared with n is the bad construct itself, wherever it appears
+        ctx.ob("C14.R2.copy-count-checked", key + tag, where, ok, "guard-on-path", detail, positive=(want is not None and payload is not None and not cmp_blocks))
         ctx.count("io-copy-sites" + tag)
 
     if not views:
